@@ -362,6 +362,7 @@ type FakeTicker struct {
 	next    int64
 	stopped int32
 	fired   int32 // one-shot: its single tick has been delivered
+	per     int64 // current period (atomic mirror of Period, which Reset rewrites)
 	Stops   int32
 	fn      func()
 	Sent    int64
@@ -373,7 +374,7 @@ func newFakeTicker(d time.Duration, oneShot bool) *FakeTicker {
 	if !ok {
 		return nil
 	}
-	f := &FakeTicker{ch: make(chan time.Time, 1), Period: d, OneShot: oneShot, next: v + int64(d)}
+	f := &FakeTicker{ch: make(chan time.Time, 1), Period: d, per: int64(d), OneShot: oneShot, next: v + int64(d)}
 	tmu.Lock()
 	tickers = append(tickers, f)
 	tmu.Unlock()
@@ -391,6 +392,7 @@ func (f *FakeTicker) reset(d time.Duration) bool {
 		was = false
 	}
 	f.Period = d
+	atomic.StoreInt64(&f.per, int64(d))
 	atomic.StoreInt64(&f.next, atomic.LoadInt64(&vnow)+int64(d))
 	return was
 }
@@ -452,6 +454,34 @@ func (f *FakeTicker) FireWait(maxYields int) bool {
 		}
 	}
 	return false
+}
+
+// Next returns the virtual instant at which the source is due next.
+func (f *FakeTicker) Next() int64 { return atomic.LoadInt64(&f.next) }
+
+// CurrentPeriod returns the period in force (Reset may have changed it).
+func (f *FakeTicker) CurrentPeriod() time.Duration { return time.Duration(atomic.LoadInt64(&f.per)) }
+
+// FireDue delivers one tick if the source is armed and due at the virtual instant
+// now (waiting for room like FireWait) and moves a periodic source's due time past
+// now, the way the runtime drops the ticks a slow receiver missed.
+func (f *FakeTicker) FireDue(now int64, maxYields int) (due, delivered bool) {
+	if !f.Armed() || f.Next() > now {
+		return false, false
+	}
+	ok := f.FireWait(maxYields)
+	if !f.OneShot {
+		p := atomic.LoadInt64(&f.per)
+		if p <= 0 {
+			p = 1
+		}
+		nx := f.Next()
+		if nx <= now {
+			nx += ((now-nx)/p + 1) * p
+			atomic.StoreInt64(&f.next, nx)
+		}
+	}
+	return true, ok
 }
 
 // Pending reports whether a tick sits undelivered in the channel.
